@@ -212,7 +212,7 @@ def run(P, C):
         txt, order = f.alpha(f.nodes[g["node"]]["cond"])
         if txt == "($0.size() != ndim)":
             kinds["wrong-length"] = g
-        elif txt == "(v0 >= ndim)" and jdef.get(order[0]) is not None:
+        elif txt == "(ndim <= v0)" and jdef.get(order[0]) is not None:
             kinds["out-of-range"] = g
         elif txt in ("v0[v1]", "v0[v1].operator bool()") and jdef.get(order[1]) is not None:
             kinds["duplicate"] = g
